@@ -80,7 +80,7 @@ def make_ops(rng, cfg, profile, tier):
         elif r < 0.869:
             ops.append({'op': 'SINGULAR_REPORT', 'a': [rng.randrange(3)]})
         elif r < 0.87:
-            ops.append({'op': 'RENAME_SHARED', 'a': [rng.randrange(4)]})
+            ops.append({'op': 'RENAME_SHARED', 'a': [rng.randrange(8)]})
         elif r < 0.93:
             ops.append({'op': 'FIX', 'a': [rng.randrange(64), round(rng.uniform(-1, 1), 2),
                                            rng.choice([None, None, 'prefix', 'suffix'])]})
@@ -619,7 +619,8 @@ class Session:
             import biogeme.database as db
             import biogeme.expressions as ex
             from biogeme.expressions import TypeOfElementaryExpression as _T
-            mode = a[0]
+            mode = a[0] % 4
+            distinct = a[0] >= 4     # the second use is written again: other objects carrying the same names
             pre, suf = ('alt_', None) if mode % 2 == 0 else (None, '_bis')
             n1 = 'rn_b'
             n2 = ('alt_' + n1) if pre else (n1 + '_bis')
@@ -628,7 +629,8 @@ class Session:
                 b_ = ex.Beta(n1, 0.3, None, None, 0)
                 a_ = ex.Beta(n2, -0.2, None, None, 0)
                 v_ = b_ * ex.Variable('x0') + a_
-                return (ex.Variable('one') * v_ - ex.log(1 + ex.exp(v_))) if mode < 2 else (v_ * v_ + v_)
+                v2_ = (ex.Beta(n1, 0.3, None, None, 0) * ex.Variable('x0') + ex.Beta(n2, -0.2, None, None, 0)) if distinct else v_
+                return (ex.Variable('one') * v_ - ex.log(1 + ex.exp(v2_))) if mode < 2 else (v_ * v2_ + v_)
             d_ = db.Database('rn', self.table.copy())
             base = [float(v) for v in mk().get_value_c(database=d_, prepare_ids=True)]
             g = mk()
@@ -642,7 +644,7 @@ class Session:
             for i_, (g_, w_) in enumerate(zip(got, base)):
                 if abs(g_ - w_) > 1e-12 * max(1.0, abs(w_)):
                     ctx.fail('I03.rename', f'after the one-to-one renaming row {i_} evaluates to {g_!r}, before to {w_!r}')
-            ctx.probe('library renaming on a formula with a shared sub-formula')
+            ctx.probe('library renaming on a formula with ' + ('names carried by several objects' if distinct else 'a shared sub-formula'))
             ctx.log(kind, mode)
         elif kind == 'SINGULAR_REPORT':
             # a model that is almost not identified along one direction: the report names the parameters involved in
